@@ -92,6 +92,12 @@ def step (s0 : MState) (j : Json) : MState × Json :=
                      -- the one-call hypothesis of `C01_histories_function_tasks` (mixed expression / function tasks)
                      ("scope_f", .bool (callOKFB sched s (.setValue p v) || ((lookDef s.defs p).isNone && scopeFB s p &&
                         validSchedule s.idx (chainR p) (sched (findTaskids s.idx (chainR p))) && x.isNone))),
+                     -- the one-call hypotheses of `C01_mixed_knobs_and_expressions` that do not need the knobs' bases: the state
+                     -- holds a linear knob, `mixedScopeB`, the value is an int, the location has no definition, the schedule
+                     -- is legal, the call completed
+                     ("scope_m", .bool (s.defs.any isKnobB && mixedScopeB s p && (lookDef s.defs p).isNone &&
+                        (match v with | .int _ => true | _ => false) &&
+                        validSchedule s.idx (chainR p) (sched (findTaskids s.idx (chainR p))) && x.isNone)),
                      ("order", .arr ((findTaskids m (chainR p)).map pathToJson).toArray)])
     | _, _ => bad s "set"
   | some "setexpr" =>
